@@ -371,7 +371,8 @@ class RenderAnnotation(GenericTypeRewriter[str]):
     def rewrite(self, typ: type) -> str:
         rendered = super().rewrite(typ)
         if getattr(typ, "__module__", None) == "typing":
-            rendered = rendered.replace("typing.", "")
+            # not str.replace: `mytyping.Foo` nested in a generic must keep its module
+            rendered = re.sub(r"(?<![\w.])typing\.", "", rendered)
         # Temporary hacky workaround for #76 to fix remaining NoneType hints by search-replace
         rendered = rendered.replace("NoneType", "None")
         return rendered
